@@ -113,6 +113,7 @@ Apply(l, a) ==
     [] a.op = "tail"          -> SubSeq(l, Len(l) - Min2(a.n, Len(l)) + 1, Len(l))
     [] a.op = "slice"         -> LET ix == SliceIdx(Len(l), a.lo, a.hi, a.step) IN [i \in DOMAIN ix |-> l[ix[i] + 1]]
     [] a.op = "copy"          -> l
+    [] a.op = "drop_na"       -> LET P(it) == \A k \in Range(a.keys) : Has(it, k) /\ it[k] # None IN SelSeq(l, P)
 
 (* ---------- declarative restatements used to check the model ---------- *)
 ModelOK(l, a) ==
